@@ -70,10 +70,14 @@ Definition str_char_ok (c : N) : bool :=
 Definition wf_str (s : str) : bool := forallb str_char_ok s.
 Definition wf_outs (ord : str) (outs : list str) : bool :=
   (match outs with [] => false | _ => true end) && forallb ident outs && (count_str ord outs =? 1)%nat.
-(* ranking aggregates (top_k, top_k_threshold, within_radius) are outside the proved fragment *)
+(* a ranking aggregate lists identifiers, its order variable exactly once; its variable text is empty *)
 Definition wf_aggf (g : aggf) (v : str) : bool :=
   match g with
-  | GTopK _ _ _ _ | GTopKThr _ _ _ _ _ | GWithin _ _ _ => false
+  | GTopK k ord outs _ => (k <? 18446744073709551616) && wf_outs ord outs && str_eqb v []
+  | GTopKThr k ord outs thr _ =>
+      (k <? 18446744073709551616) && wf_outs ord outs && canon thr && disp_ok thr && str_eqb v []
+  | GWithin dvar outs maxd =>
+      wf_outs dvar outs && canon maxd && disp_ok maxd && negb (first_is 45 (e_disp E maxd)) && str_eqb v []
   | _ => ident v
   end.
 Fixpoint wf_term (t : term) : bool :=
@@ -104,7 +108,9 @@ Definition wf_bpred (b : bpred) : bool :=
   | BNeg a => wf_atom a
   | BCmp l o r =>
       wf_side l && wf_side r && negb (starts_with hnsw_prefix (show_bpred E (BCmp l o r)))
-  | BHnsw _ _ _ _ _ _ => false   (* hnsw_nearest(..) is outside the proved fragment *)
+  | BHnsw idx q k idv dv ef =>
+      wf_str idx && wf_term q && (1 <=? k) && (k <? 18446744073709551616) && wf_uvar idv && wf_uvar dv
+      && match ef with Some e => e <? 18446744073709551616 | None => true end
   end.
 Definition wf_rule (r : rule) : bool := match r with Rule h b => wf_atom h && forallb wf_bpred b end.
 
